@@ -348,6 +348,25 @@ def handled_monitor(ck, g):
                     okc, Y = ck.call("handled", f"ctor/{cname}", f"pp.{cname}", lambda: fn(Xs, dtype=torch.float64), witness=wit)
                     if okc:
                         check_meta(ck, "handled", f"ctor/{cname}", f"pp.{cname}", Y, kind, tuple(shp) + (d,), torch.float64, wit)
+        # reduced-precision dtypes: whatever is returned must have the requested dtype (a constructor that cannot work in
+        # half precision may raise - recorded, not judged)
+        for dt in (torch.float16, torch.bfloat16):
+            for shp in ((), (3,), (2, 2)):
+                for cname, ctor in (("randn", getattr(pp, f"randn_{kind}")), ("identity", getattr(pp, f"identity_{kind}"))):
+                    wit = {"ltype": kind, "shape": list(shp), "dtype": str(dt)}
+                    try:
+                        Xh = ctor(*shp, dtype=dt)
+                    except Exception:
+                        ck.note_add(f"half_precision_constructor_raised/{cname}_{kind}", 1)
+                        continue
+                    ck.count("handled", f"ctor/{cname}/half", key=(kind, shp, str(dt), cname))
+                    check_meta(ck, "handled", f"ctor/{cname}/half", f"pp.{cname}_{kind}", Xh, kind, tuple(shp) + (d,), dt, wit)
+                    ck.mark("ctor/half_precision")
+                    try:
+                        Yh = pp.randn_like(Xh)
+                        check_meta(ck, "handled", "ctor/randn_like/half", "pp.randn_like", Yh, kind, tuple(shp) + (d,), dt, wit)
+                    except Exception:
+                        ck.note_add("half_precision_constructor_raised/randn_like", 1)
         X = rand_group(kind, (2, 3), torch.float64, g) if kind in lie.GRPS else rand_alg(kind, (2, 3), torch.float64, g)
         P = pp.Parameter(X)
         ck.count("handled", "Parameter", key=kind)
@@ -403,7 +422,7 @@ def run(ck):
     # ---- 2. handled functions (shard 0 only: deterministic table)
     if ck.shard == 0:
         handled_monitor(ck, g)
-        ck.require("handled/covered")
+        ck.require("handled/covered", "ctor/half_precision")
     if ck.shard == 1 % ck.nshards:
         from .c06_purity import purity_monitor
         purity_monitor(ck, g)
